@@ -13,7 +13,7 @@ LEAN_TARGETS = ['LLTD.Props.C17']
 VARIANT = 'plain'
 RULE = ('pairs of histories (h1, h2) on two interface contexts with different attributes: a seeded random merge of the two, and each history '
         'alone (the other context created but silent); the per-interface transmit/sleep traces of the merge are compared with the '
-        'solo runs; both orders of the first frames occur; pairs where one interface holds ~1000 unreported observations while the other records and reports its own; plus (thread clause, steady state) two threads each serving a full session on its own existing interface under ThreadSanitizer with a port that shares no mutable object; (thread clause, first frame) the six schedules of two threads at the hook points of '
+        'solo runs; both orders of the first frames occur; pairs where one interface holds ~1000 unreported observations while the other records and reports its own; plus (thread clause, steady state) two threads each serving a full session on its own existing interface under ThreadSanitizer with a port that shares no mutable object; (daemon level) the real linux-embedded-main.c and linux-main.c with the real Linux port on scripted interfaces under ASan and TSan, per-interface traces compared with the model; (thread clause, first frame) the six schedules of two threads at the hook points of '
         'lltd_state_for_iface replayed on the real code; non-trivial = both interfaces transmitted; distinct = distinct projected transcript')
 ASSUMPTIONS = ['port contract as for C02', 'no faults; process-wide attributes (host name, icon, ...) constant during the run',
                'thread clause: sequential consistency at the granularity of the two hook points; the C11 data-race verdict itself is only observed by TSan']
@@ -174,4 +174,68 @@ def extra_run(tier, seed, tag):
     else:
         out['notes'].append('steady-state TSan harness does not build: ' + r.stdout[-400:])
     out['coverage'] = {'thread_schedules': results, 'tsan_supporting_run': tsan, 'tsan_steady_state': steady}
+    out['coverage']['daemon_level'] = daemon_clause(tier, seed, tag, out)
     return out
+
+
+def daemon_clause(tier, seed, tag, out):
+    """the REAL Linux daemons as a whole (their own interface discovery, their own threads, the real Linux port) on
+    scripted interfaces: per-interface traces must equal the model's trace of that interface's history alone; ASan / TSan
+    reports inside the daemon glue are violations"""
+    import random
+    import daemonlib as D
+    from .c02 import history
+    rng = random.Random(seed * 31 + 7)
+    work = os.path.join(vlib.BUILD, tag, 'daemon', 'run')
+    cov = {}
+    for which in ('embedded', 'nm'):
+        for variant in ('asan', 'tsan'):
+            b, err = D.build(tag, which, variant)
+            key = '%s_%s' % (which, variant)
+            if not b:
+                out['notes'].append('daemon harness (%s) does not build against the working tree: %s' % (key, err[-300:]))
+                cov[key] = 'build failed'
+                continue
+            n = (3 if variant == 'asan' else 2) if tier == 'quick' else (60 if variant == 'asan' else 15)
+            ran = diffs = reports = known_race = 0
+            for k in range(n):
+                nif = rng.choice([2, 2, 3])
+                ifaces = [('vif%d' % i, '02aabbccdd%02x' % (i + 1), rng.choice([576, 1500, 1492, 4000]), 'c0a801%02x' % (5 + i)) for i in range(nif)]
+                frames = []
+                for i, (_, mac, mtu, _) in enumerate(ifaces):
+                    for f in history(rng, mac, mtu)[:40]:
+                        frames.append((i, f))
+                label = '%s_%d' % (key, k)
+                impl, san, rc, sp = D.run(b, D.script(ifaces, frames), work, label)
+                ran += 1
+                replay = ['%% daemon-level run: harness/build_daemon.sh <dir> %s %s ; <dir>/daemon_%s_%s <this file>' % (which, variant, which, variant)] + ['%d ' + l for l in D.script(ifaces, frames)]
+                if impl is None:
+                    out['violations'].append(('daemon_' + label, replay, (0, 'C17 daemon level (%s): the daemon did not finish serving the scripted frames (%s)' % (key, san))))
+                    continue
+                if variant == 'tsan':
+                    # reports of the known finding (unsynchronised insertion in lltd_state_for_iface and the record it publishes) are not new
+                    blocks = san.split('WARNING: ThreadSanitizer: data race')[1:]
+                    new_blocks = [b for b in blocks if 'lltd_state_for_iface' not in '\n'.join(b.split('\n')[:14]) and 'SignalHandler' not in b]   # the shutdown flag (volatile sig_atomic_t) is not interface state
+                    known_race += len(blocks) - len(new_blocks)
+                    summ = D.sanitizer_summary('WARNING: ThreadSanitizer: data race' + new_blocks[0]) if new_blocks else None
+                else:
+                    summ = D.sanitizer_summary(san)
+                if summ:
+                    reports += 1
+                    out['violations'].append(('daemon_' + label, replay, (0, 'C17 daemon level (%s, %d interfaces served by the daemon\'s own threads): %s' % (key, nif, summ))))
+                    continue
+                if rc not in (0,) and variant == 'asan':
+                    out['violations'].append(('daemon_' + label, replay, (0, 'C17 daemon level (%s): the daemon process ended abnormally (exit %s) %s' % (key, rc, san[-300:]))))
+                    continue
+                if variant == 'asan':
+                    ops = D.model_ops(ifaces, frames, 0xbe)
+                    model, bad = D.model_run(ops, work, label)
+                    d = D.compare(ifaces, impl, model)
+                    if bad:
+                        out['notes'].append('daemon level: the model driver rejected an op of %s' % label)
+                    if d:
+                        diffs += 1
+                        out['violations'].append(('daemon_' + label, replay + ['% model ops:'] + ['% ' + o for o in ops],
+                                                  (0, 'C17 daemon level (%s): what the daemon sent on interface %d differs from the model\'s trace of that interface\'s history alone at line %d: %r vs %r' % ((key,) + d))))
+            cov[key] = '%d runs, %d trace differences, %d sanitizer reports%s' % (ran, diffs, reports, (', %d reports of the known insertion race' % known_race) if variant == 'tsan' else '')
+    return cov
